@@ -208,6 +208,9 @@ func genDelta(r *Rng, allowHuge bool) uint32 {
 }
 
 func genLen(r *Rng, tier string) int {
+	if r.Chance(1, 100) { // beyond the 4096-byte step of ReadNBytes (bounded-growth path)
+		return r.Pick(4095, 4096, 4097, 4098, 5000, 8192, 8193)
+	}
 	switch r.Intn(12) {
 	case 0:
 		return 0
